@@ -208,6 +208,51 @@ theorem cancel_first (r : Nat) (c : Outcome) (os : List Outcome) (hc : c.isCance
     Ev.finish ∈ run r 0 (c :: os) ∧ Ev.failure ∉ run r 0 (c :: os) := by
   cases c <;> simp [Outcome.isCancel] at hc <;> simp [run, pre]
 
+/-- **C19, keep-alives stop.**  Once the failure has been reported nothing the device or
+    the scheduler does afterwards matters: the run (events and iteration count) is the
+    same whatever follows in the script. -/
+theorem stops_after_failure (r : Nat) (os : List Outcome) :
+    ∀ a, Ev.failure ∈ run r a os → ∀ post, run r a (os ++ post) = run r a os ∧
+      iterations r a (os ++ post) = iterations r a os := by
+  induction os with
+  | nil => intro a h; simp [run] at h
+  | cons o os ih =>
+    intro a h post
+    cases o with
+    | ok =>
+      simp only [run, List.mem_append, failure_not_mem_pre, false_or] at h
+      simp [run, iterations, ih 0 h post]
+    | fail =>
+      by_cases hlt : a + 1 > r
+      · simp [run, iterations, hlt]
+      · simp only [run, hlt, if_false, List.mem_append, failure_not_mem_pre, false_or] at h
+        simp [run, iterations, hlt, ih (a + 1) h post]
+    | cancelSleep => simp [run, iterations]
+    | cancelSend => simp [run, iterations]
+
+/-- every iteration sends at most one keep-alive, and the loop never runs more iterations
+    than outcomes were supplied -/
+theorem sends_le_iterations (r : Nat) (os : List Outcome) :
+    ∀ a, (run r a os).count Ev.send ≤ iterations r a os ∧ iterations r a os ≤ os.length := by
+  induction os with
+  | nil => intro a; simp [run, iterations]
+  | cons o os ih =>
+    intro a
+    have hpre : (pre a).count Ev.send = 1 := by unfold pre; split <;> simp
+    cases o with
+    | ok =>
+      have := ih 0
+      simp only [run, iterations, List.count_append, hpre, List.length_cons]; omega
+    | fail =>
+      by_cases hlt : a + 1 > r
+      · simp only [run, iterations, hlt, if_true, List.count_append, hpre, List.length_cons]; simp
+      · have := ih (a + 1)
+        simp only [run, iterations, hlt, if_false, List.count_append, hpre, List.length_cons]; omega
+    | cancelSleep =>
+      simp only [run, iterations, List.length_cons]; split <;> simp
+    | cancelSend =>
+      simp only [run, iterations, List.count_append, hpre, List.length_cons]; simp
+
 /-! ## Non-vacuity -/
 
 example : HasWindow 1 [.ok, .fail, .ok, .fail, .fail, .ok] :=
